@@ -243,14 +243,14 @@ pub fn run(ctx: &mut Ctx) {
             continue;
         }
         let body = payload::nth_string(&stream::SIGMA2, i);
-        for pad in 0..=4u8 {
+        for pad in [0u8, 1, 2, 3, 4, 0x80, 0xf0, 0xff] {
             let s = stream::small_frame(&body, pad);
             ctx.eval(&Sound { s, all_fe: false, origin: "exhaustive-small" });
             n += 1;
         }
     }
     ctx.exhaustive_space(
-        &format!("START + body over {{1b,00,1a,01,55}} of length <= {} + end sequence with pad 0..4 + valid CRC", maxlen),
+        &format!("START + body over {{1b,00,1a,01,55}} of length <= {} + end sequence with pad in {{0..4,80,f0,ff}} + valid CRC", maxlen),
         n,
     );
     // random adversarial streams
